@@ -256,60 +256,85 @@ Proof.
   split; [reflexivity|]. apply Qnot_lt_le. intros C. apply Qlt_bool_iff in C. congruence.
 Qed.
 
-(** scalar rule with every sum masked *)
-Lemma residual_scalar_masked l :
-  y_L2 (map cell_of l) - 2 * sumQ (map (masked c_ym) (map cell_of l)) + sumQ (map (masked c_mm) (map cell_of l)) == rss l.
+(** scalar rule: ONE masked sum of the combined statistic over all cells — the same quantity as the per-feature rule,
+    taken over the cells of every feature *)
+Lemma noise_scalar_is_ft_var cells : noise_scalar_var cells = noise_ft_var cells.
+Proof. reflexivity. Qed.
+
+Lemma noise_scalar_var_spec l : noise_scalar_var (map cell_of l) == rss l / n_observed l.
+Proof. unfold noise_scalar_var. now rewrite residual_diag, n_obs_cell_of. Qed.
+
+Lemma n_observed_pos_iff l : 0 < n_observed l <-> ~ n_observed l == 0.
 Proof.
-  unfold y_L2, rss. induction l as [|[[y m] j] l IH]; [simpl; ring|].
-  rewrite !map_cons, !sumQ_cons, <- IH.
-  unfold masked, observed, y2, sqr, cell_of; cbn [cy c_ym c_mm]. destruct y; ring.
+  split.
+  - intros H C. rewrite C in H. now apply Qlt_irrefl in H.
+  - intros H. destruct (Qle_lt_or_eq _ _ (lenQ_nonneg (filter (fun t : option Q * Q * Q =>
+      let '(y, _, _) := t in match y with Some _ => true | None => false end) l))) as [P|E]; [exact P|].
+    exfalso. apply H. symmetry. exact E.
 Qed.
 
-Lemma noise_scalar_masked_spec l : noise_scalar_var true (map cell_of l) == rss l / n_observed l.
-Proof. unfold noise_scalar_var. now rewrite residual_scalar_masked, n_obs_cell_of. Qed.
-
-(** what the unmasked sum adds: model^2 of the unobserved cells *)
-Definition leaked (cells : list cell) : Q := sumQ (map (fun c => if observed c then 0 else c_mm c) cells).
-
-Lemma sum_mm_split cells : sumQ (map c_mm cells) == sumQ (map (masked c_mm) cells) + leaked cells.
+(** the rule as a whole, guard and square root included, for ANY values under the mask ([junk], and the model value
+    of an unobserved cell): it is undefined exactly when nothing is observed; otherwise it raises exactly when the
+    observed-entry mean squared residual is below [tol], and else returns it (the stored parameter: its square root,
+    the RMS residual over observed entries) *)
+Lemma noise_scalar_rule_spec (tol : Q) (l : list (option Q * Q * Q)) :
+  let d := rss l / n_observed l in
+  (n_observed l == 0 <-> noise_scalar_rule tol (map cell_of l) = Undefined) /\
+  (0 < n_observed l -> 0 <= d) /\
+  (0 < n_observed l -> d < tol -> noise_scalar_rule tol (map cell_of l) = Collapse) /\
+  (0 < n_observed l -> tol <= d ->
+     exists v, noise_scalar_rule tol (map cell_of l) = Ok v /\ v == d /\ std_of (Ok v) = Ok (sqrt (Q2R d))).
 Proof.
-  unfold leaked. induction cells as [|c l IH]; simpl; [ring|]. rewrite IH. unfold masked. destruct (observed c); ring.
+  intros d. pose proof (noise_scalar_var_spec l) as E. fold d in E.
+  unfold noise_scalar_rule. rewrite n_obs_cell_of. unfold guard.
+  split; [|split; [|split]].
+  - destruct (Qeq_bool (n_observed l) 0) eqn:B.
+    + apply Qeq_bool_iff in B. split; [reflexivity | intros _; exact B].
+    + split.
+      * intros C. apply Qeq_bool_iff in C. congruence.
+      * destruct (Qlt_bool _ tol); discriminate.
+  - intros Hn. unfold d. apply Qle_shift_div_l; [exact Hn|]. rewrite Qmult_0_l. apply rss_nonneg.
+  - intros Hn Hd. apply n_observed_pos_iff in Hn.
+    destruct (Qeq_bool (n_observed l) 0) eqn:B; [apply Qeq_bool_iff in B; contradiction|].
+    rewrite <- E in Hd. apply Qlt_bool_iff in Hd. now rewrite Hd.
+  - intros Hn Hd. apply n_observed_pos_iff in Hn.
+    destruct (Qeq_bool (n_observed l) 0) eqn:B; [apply Qeq_bool_iff in B; contradiction|].
+    rewrite <- E in Hd.
+    destruct (Qlt_bool _ tol) eqn:B2.
+    + apply Qlt_bool_iff in B2. exfalso. apply (Qlt_not_le _ _ B2 Hd).
+    + eexists. split; [reflexivity|]. split; [exact E|].
+      unfold std_of, res_map. f_equal. f_equal. apply Qeq_eqR. exact E.
 Qed.
 
-Lemma noise_scalar_excess cells :
-  noise_scalar_var false cells == noise_scalar_var true cells + leaked cells / n_obs cells.
-Proof. unfold noise_scalar_var. rewrite sum_mm_split. unfold Qdiv. ring. Qed.
-
-Lemma leaked_zero cells :
-  (forall c, In c cells -> observed c = false -> c_mm c == 0) -> leaked cells == 0.
+(** whatever the rule returns on arbitrary cells (any statistics in force, averaged or not) is [noise_scalar_var],
+    at least [tol], and something is observed *)
+Lemma noise_scalar_rule_ok tol cells v :
+  noise_scalar_rule tol cells = Ok v -> ~ n_obs cells == 0 /\ v = noise_scalar_var cells /\ tol <= v.
 Proof.
-  intros H. unfold leaked. induction cells as [|c l IH]; simpl; [reflexivity|].
-  rewrite IH by (intros; apply H; [now right | assumption]).
-  destruct (observed c) eqn:E; [ring|]. rewrite (H c (or_introl eq_refl) E). ring.
+  unfold noise_scalar_rule, guard. intros H.
+  destruct (Qeq_bool (n_obs cells) 0) eqn:E; [discriminate|].
+  split; [intros C; apply Qeq_bool_iff in C; congruence|].
+  destruct (Qlt_bool _ tol) eqn:B; [discriminate|]. injection H as <-.
+  split; [reflexivity|]. apply Qnot_lt_le. intros C. apply Qlt_bool_iff in C. congruence.
 Qed.
 
-Lemma noise_scalar_partial l :
-  (forall y m j, In (y, m, j) l -> y = None -> m == 0) ->
-  noise_scalar_var false (map cell_of l) == rss l / n_observed l.
-Proof.
-  intros H. rewrite noise_scalar_excess, noise_scalar_masked_spec, leaked_zero.
-  - unfold Qdiv. ring.
-  - intros c Hc Ho. apply in_map_iff in Hc. destruct Hc as [[[y m] j] [<- Hin]].
-    unfold observed in Ho. simpl in *. destruct y; [discriminate|].
-    rewrite (H None m j Hin eq_refl). ring.
-Qed.
+(** non-vacuity, and "for any values under the mask" made concrete.  2 individuals x 1 visit x 2 features, the second
+    feature of the second visit missing; model = 1/2 everywhere (also at the missing entry), observations 1/2, 1/2, 3/4.
+    Observed-entry RSS = 1/16 over 3 entries: the rule returns 1/48 whether the product held under the mask is 0 or 7 —
+    and NOT 1/48 + (1/4)/3 = 5/48, the value obtained when model^2 of the unobserved entry is summed too (what
+    [scalar_noise_std_update] computed before leaspy commit 3d244df). *)
+Definition scalar_example (junk : Q) : list (option Q * Q * Q) :=
+  [(Some (1#2), 1#2, 0); (Some (1#2), 1#2, 0); (Some (3#4), 1#2, 0); (None, 1#2, junk)].
 
-(** 2 individuals x 1 visit x 2 features, one entry missing, model = data on the observed entries:
-    the RMS residual over observed entries is 0, the code's rule gives 1/12 *)
-Definition scalar_witness : list (option Q * Q * Q) :=
-  [(Some (1#2), 1#2, 0); (Some (1#2), 1#2, 0); (Some (1#2), 1#2, 0); (None, 1#2, 0)].
-
-Lemma noise_scalar_refuted :
-  exists l, 0 < n_observed l /\ rss l / n_observed l == 0 /\ noise_scalar_var false (map cell_of l) == 1 # 12
-            /\ ~ noise_scalar_var false (map cell_of l) == rss l / n_observed l.
+Lemma noise_scalar_example :
+  n_observed (scalar_example 0) == 3 /\ rss (scalar_example 0) / n_observed (scalar_example 0) == 1 # 48 /\
+  noise_scalar_rule (1 # 100000) (map cell_of (scalar_example 0)) = noise_scalar_rule (1 # 100000) (map cell_of (scalar_example 7)) /\
+  (exists v, noise_scalar_rule (1 # 100000) (map cell_of (scalar_example 7)) = Ok v /\ v == 1 # 48) /\
+  noise_scalar_rule (1 # 10) (map cell_of (scalar_example 7)) = Collapse /\
+  noise_scalar_rule (1 # 100000) (map cell_of [(None, 1#2, 7)]) = Undefined.
 Proof.
-  exists scalar_witness. split; [reflexivity|]. split; [reflexivity|]. split; [reflexivity|].
-  intros C. vm_compute in C. discriminate.
+  split; [reflexivity|]. split; [reflexivity|]. split; [reflexivity|].
+  split; [eexists; split; [vm_compute; reflexivity | reflexivity]|]. split; reflexivity.
 Qed.
 
 (** * Mixture *)
